@@ -238,6 +238,15 @@ def long_cases(rng, n):
         start = r.choice([0, 0, 990, 1001])
         ops = [["peer_set_best", main[:r.range(996, 1002)]], ["settle", 40000], ["peer_set_best", main], ["settle", 40000],
                ["peer_set_best", main[:fork_at + 1] + fork], ["settle", 40000]]
+        if i % 2 == 0:
+            # ... and back: the peer's best chain returns to the first branch, now longer (blocks orphaned by the
+            # first reorg, some of them in an older header file, are part of the best chain again)
+            ext, prev = [], L
+            for j in range(flen - (L - fork_at) + 2):
+                par.append([6000 + j, prev])
+                prev = 6000 + j
+                ext.append(prev)
+            ops += [["peer_set_best", main + ext], ["settle", 40000]]
         if r.chance(1, 2):
             ops += [["restartnode"], ["settle", 40000]]
         res.append({"cfg": {"parents": par, "start": start, "m": 2000}, "ops": ops, "origin": "long"})
